@@ -112,18 +112,22 @@ def check(ctx):
             # scalar transcription only (not sent to the driver)
             huge = []
             if name in ('brown', 'csendes', 'quintic', 'sphere', 'schwefel', 'rastringin', 'alpine1', 'chung_reynolds') or ctx['tier'] == 'thorough':
+                import random as _rnd
                 for n in (65537, 70001):
-                    huge.append(('huge', [1.0] * n))
-                    huge.append(('huge', [C.rng.uniform(lo, hi) for _ in range(n)]))
-            for tag, x in huge:
+                    huge.append((None, [1.0] * n))
+                    rs_ = C.rng.randrange(1 << 30)
+                    r_ = _rnd.Random(rs_)
+                    huge.append((rs_, [r_.uniform(lo, hi) for _ in range(n)]))
+            for rs_, x in huge:
+                rp_h = dict(how='bench-huge', name=name, n=len(x), draw_seed=rs_, lo=lo, hi=hi)
                 try:
                     y = float(fn(np.array(x, dtype=float)))
                     ref = float(REF[name](x))
                 except Exception as ex:
-                    C.issue('benchmark-raised', 'oracle', dict(how='bench-huge', name=name, n=len(x), ones=(x[0] == 1.0 and x[-1] == 1.0)), error=repr(ex)[:100])
+                    C.issue('benchmark-raised', 'oracle', rp_h, error=repr(ex)[:100])
                     continue
                 if ref == ref and abs(ref) != float('inf') and not close(ref, y):
-                    C.issue('not-the-documented-formula', 'oracle', dict(how='bench-huge', name=name, n=len(x), ones=(x[0] == 1.0 and x[-1] == 1.0)), got=y, reference=ref)
+                    C.issue('not-the-documented-formula', 'oracle', rp_h, got=y, reference=ref)
                 C.case(key=(name, 'huge', len(x), x[0]), nontrivial=True, kind=f'{name}/huge')
             ok_pts = []
             for tag, x in pts:
@@ -326,16 +330,18 @@ def replay(prop, payload):
     if payload.get('how') == 'bench-huge':
         # only the all-ones vectors replay from the file (the random ones are re-drawn by the check)
         name = payload['name']
-        x = [1.0] * payload['n']
+        if payload.get('draw_seed') is None:
+            x = [1.0] * payload['n']
+        else:
+            import random as _rnd
+            r_ = _rnd.Random(payload['draw_seed'])
+            x = [r_.uniform(payload['lo'], payload['hi']) for _ in range(payload['n'])]
         try:
             y = float(getattr(bm, name)(np.array(x, dtype=float)))
             ref = float(REF[name](x))
         except Exception:
             return True
-        if not close(ref, y):
-            return True
-        res = check(dict(seed=0, tier='quick', prop=prop))
-        return any(i['layer'] == 'oracle' and i.get('replay', {}).get('how') == 'bench-huge' for i in res['issues'])
+        return bool(ref == ref and abs(ref) != float('inf') and not close(ref, y))
     name, x = payload['name'], payload['x']
     try:
         float(np.asarray(getattr(bm, name)(np.array(x, dtype=float))).reshape(-1)[0])
